@@ -385,7 +385,8 @@ def _coverage(repo, rep):
     class _F:
         def __init__(self, args):
             self.args = args
-    fmts = [_F(a_) for t_, a_, n_ in L.fmt_sites(sn.node) if len(a_) == 2]
+    fmts = [_F(a_) for t_, a_, n_ in L.fmt_sites(sn.node)
+            if len(a_) == 2 and t_ == "%s.%s"]
     okq = bool(fmts)
     qdetail = ""
     for fm in fmts:
@@ -412,13 +413,31 @@ def _coverage(repo, rep):
     # memory address, which the next closure allocated there inherits
     rets_ = [n for n in ast.walk(sn.node) if isinstance(n, ast.Return)
              and n.value is not None]
-    bare_repr = [n for n in rets_ if isinstance(n.value, ast.Call)
-                 and src(n.value.func) == "repr" and len(n.value.args) == 1]
-    rep.check(bool(rets_) and not bare_repr, "R15.1", sn.qualname, "the "
-              "fallback name of a value without a stable name is not its "
-              "bare repr() (address-based: reused by a later object)",
-              construct="stable-name-fallback-unique", where=L.where(
-                  sn, bare_repr[0].lineno) if bare_repr else L.where(sn))
+    # (the fallback returns: those that are not the 'module.name' format)
+    fallbacks = [n for n in rets_ if not any(
+        t_.count("%s") == 2 and "." in t_
+        for t_, a_, n_ in L.fmt_sites(n.value))]
+    addr = [n for n in fallbacks if any(
+        isinstance(c_, ast.Call) and src(c_.func) in ("repr", "id")
+        for c_ in ast.walk(n.value))]
+    rep.check(bool(fallbacks) and not addr, "R15.1", sn.qualname, "the "
+              "fallback name of a value without a stable name is not built "
+              "on its memory address (repr() / id(): reused by a later "
+              "object)", construct="stable-name-fallback-unique",
+              where=L.where(sn, addr[0].lineno) if addr else L.where(sn))
+    # ... but two such values that are alive together never share a name:
+    # the identity of the object is part of it (the repr of a class made by
+    # a factory function carries no address and is that of its siblings)
+    ident = [n for n in fallbacks if any(
+        isinstance(c_, ast.Call) and src(c_.func) == "id" and c_.args
+        for c_ in ast.walk(n.value))]
+    rep.check(bool(fallbacks) and len(ident) == len(fallbacks), "R15.1",
+              sn.qualname, "the fallback name of a value without a stable "
+              "name carries the object's identity (two classes made by one "
+              "factory function have one repr)",
+              construct="stable-name-fallback-identity", where=L.where(
+                  sn, fallbacks[0].lineno) if fallbacks else L.where(sn),
+              detail="; ".join(src(n.value)[:60] for n in fallbacks))
     # ... nor does a method bound to an instance: the bound method forwards
     # the function's __qualname__, the instance that configures it is not in
     # the name (two expression-type factories obj_a.make / obj_b.make)
